@@ -32,20 +32,20 @@ type Obligation struct {
 	Model  string  `json:"-"`
 	Output string  `json:"-"`
 	// known-finding handling
-	Canary  bool   `json:"canary,omitempty"`
-	Finding string `json:"finding,omitempty"`
-	Smoke   bool   `json:"smoke,omitempty"`
-	getvals []string
-	replay  *replayInfo
+	Canary       bool   `json:"canary,omitempty"`
+	Finding      string `json:"finding,omitempty"`
+	Smoke        bool   `json:"smoke,omitempty"`
+	getvals      []string
+	replay       *replayInfo
 	Info         bool // reachability probe of one return path: reported, never a failure
 	batch        bool
-	noProvedFrom int    // batch query: ignore proved-goal assumptions from this line on (-1: keep all)
-	hide     [][2]int   // script ranges of other paths (not part of this query)
-	partHide [][][2]int // per part
+	noProvedFrom int        // batch query: ignore proved-goal assumptions from this line on (-1: keep all)
+	hide         [][2]int   // script ranges of other paths (not part of this query)
+	partHide     [][][2]int // per part
 }
 
 type Ctx struct {
-	noHide bool // obligations over the merged exit state: no path is hidden
+	noHide      bool // obligations over the merged exit state: no path is hidden
 	P           *Program
 	sc          *Script
 	heapSort    map[string]string
@@ -112,19 +112,19 @@ type Ptr struct {
 }
 
 type Frame struct {
-	id      int
-	fn      *ssa.Function
-	env     map[ssa.Value]Val
-	ptrs    map[ssa.Value]*Ptr
-	ct      *Contract
-	params  map[string]Val // entry values of formals (for specs)
-	isTop   bool
-	curIns  []edgeInB
-	pkg     *types.Package
-	loopOrd map[*ssa.BasicBlock]int
-	freeVars map[*ssa.FreeVar]int
-	cl      *closure
-	curCall *ssa.CallCommon
+	id        int
+	fn        *ssa.Function
+	env       map[ssa.Value]Val
+	ptrs      map[ssa.Value]*Ptr
+	ct        *Contract
+	params    map[string]Val // entry values of formals (for specs)
+	isTop     bool
+	curIns    []edgeInB
+	pkg       *types.Package
+	loopOrd   map[*ssa.BasicBlock]int
+	freeVars  map[*ssa.FreeVar]int
+	cl        *closure
+	curCall   *ssa.CallCommon
 	curBlock  *ssa.BasicBlock
 	innerLoop map[*ssa.BasicBlock]*ssa.BasicBlock // block -> innermost loop header
 }
@@ -1360,7 +1360,6 @@ func (c *Ctx) entryTopOrZero() T {
 	}
 	return ""
 }
-
 
 // inSet: r is one of the references stored in the slice (SetE, SetOff, SetLen).
 func (m ModLoc) inSet(r T) T {
